@@ -1,5 +1,5 @@
 #!/usr/bin/env python3
-"""Prints the markdown tables of DESIGN.md section 8 from /verif/seeded/*/meta.json (usage: seed_table.py r1|r2|r3|r4|r5; r4 and r5 add the first-measurement column)."""
+"""Prints the markdown tables of DESIGN.md section 8 from /verif/seeded/*/meta.json (usage: seed_table.py r1|...|r6; r4, r5 and r6 add the first-measurement column)."""
 import json
 import re
 import sys
@@ -10,7 +10,7 @@ rows = []
 for d in sorted((Path(__file__).resolve().parent.parent / 'seeded').iterdir()):
     if not (d / 'meta.json').exists() or not (d / 'patch.diff').exists():
         continue
-    tag = 'r5' if '-r5-' in d.name else 'r4' if '-r4-' in d.name else 'r3' if '-r3-' in d.name else 'r2' if '-r2-' in d.name else 'r1'
+    tag = 'r6' if '-r6-' in d.name else 'r5' if '-r5-' in d.name else 'r4' if '-r4-' in d.name else 'r3' if '-r3-' in d.name else 'r2' if '-r2-' in d.name else 'r1'
     if tag != rnd:
         continue
     m = json.loads((d / 'meta.json').read_text())
